@@ -10,7 +10,8 @@ EXTRA = {'C12-b': ['C18'], 'C03-a': ['C10'], 'C03-b': ['C18'], 'C06-a': ['C18'],
          'C15x-b': ['C04'], 'C20x-a': ['C01'], 'C13x-b': ['C06'],
          'C12y-b': ['C15'], 'C15y-b': ['C01'], 'C20y-b': ['C18'], 'C07y-b': ['C01'], 'C10y-a': ['C01'], 'C17y-a': ['C14'], 'C17y-b': ['C07', 'C14'],
          'C14y-a': ['C03'], 'C14y-b': ['C04'], 'C13y-b': ['C03'], 'C16y-b': ['C01', 'C19'], 'C18y-b': ['C06'], 'C06y-a': ['C15'], 'C08y-b': ['C05'], 'C01y-b': ['C20'],
-         'C01z-a': ['C20'], 'C14z-b': ['C20', 'C01'], 'C14z-a': ['C18'], 'C15z-a': ['C06'], 'C03z-b': ['C11'], 'C02z-a': ['C16'], 'C05z-a': ['C10'], 'C07z-b': ['C08', 'C17'], 'C08z-a': ['C07'], 'C19z-a': ['C16'], 'C20z-b': ['C13']}
+         'C01z-a': ['C20'], 'C14z-b': ['C20', 'C01'], 'C14z-a': ['C18'], 'C15z-a': ['C06'], 'C03z-b': ['C11'], 'C02z-a': ['C16'], 'C05z-a': ['C10'], 'C07z-b': ['C08', 'C17'], 'C08z-a': ['C07'], 'C19z-a': ['C16'], 'C20z-b': ['C13'],
+         'C03v-a': ['C18'], 'C17v-a': ['C18'], 'C05v-a': ['C08'], 'C10v-a': ['C07'], 'C19v-a': ['C10']}
 
 def main():
     wt = [a for a in sys.argv[1:] if a.startswith('--worktree=')]
